@@ -1309,6 +1309,158 @@ var2 mk2(std::string const &s)
   throw bad_op{};
 }
 
+// continuations that take a non-const reference and write through it (non-const lvalue sources): the argument must be
+// the object inside the source, so the source shows the new value afterwards
+template <typename X>
+void bump(X &x)
+{
+  x = X{(x.v() + 1) % 3};
+}
+template <typename Rt, typename X>
+auto fn1m(char const *const site, table<Rt> const &t)
+{
+  return [site, &t](X &x) -> Rt
+  {
+    int const old{x.v()};
+    lg(site, {old});
+    bump(x);
+    return t.at(ix(old));
+  };
+}
+template <typename Rt, typename X, typename Y>
+auto fn2m(char const *const site, table<Rt> const &t)
+{
+  return [site, &t](X &x, Y &y) -> Rt
+  {
+    int const ox{x.v()}, oy{y.v()};
+    lg(site, {ox, oy});
+    bump(x);
+    bump(y);
+    return t.at(ix(ox) * 3 + ix(oy));
+  };
+}
+
+std::string op_mut(std::vector<std::string> const &t)
+{
+  std::string const &o = t[0];
+  std::size_t const n = t.size();
+  namespace fo = fcppt::optional;
+  namespace fe = fcppt::either;
+  namespace fv = fcppt::variant;
+  if (o == "o.map.mut" && n == 3)
+  {
+    auto const f = tbl<B>(3, t[2]);
+    oA x{tok<oA>(t[1])};
+    oB const r{fo::map(x, fn1m<B, A>("f", f))};
+    return show(r) + " " + show(x);
+  }
+  if (o == "o.bind.mut" && n == 3)
+  {
+    auto const f = tbl<oB>(3, t[2]);
+    oA x{tok<oA>(t[1])};
+    oB const r{fo::bind(x, fn1m<oB, A>("f", f))};
+    return show(r) + " " + show(x);
+  }
+  if (o == "o.maybe.mut" && n == 4)
+  {
+    std::optional<B> const d{tokx<B>(t[2])};
+    auto const f = tbl<B>(3, t[3]);
+    oA x{tok<oA>(t[1])};
+    B const r{fo::maybe(x, thunk<B>("d", d), fn1m<B, A>("t", f))};
+    return show(r) + " " + show(x);
+  }
+  if (o == "o.maybe_void.mut" && n == 2)
+  {
+    oA x{tok<oA>(t[1])};
+    fo::maybe_void(x, [](A &a)
+                   {
+                     lg("t", {a.v()});
+                     bump(a);
+                   });
+    return "u " + show(x);
+  }
+  if (o == "o.apply2.mut" && n == 4)
+  {
+    auto const f = tbl<R>(9, t[3]);
+    oA x{tok<oA>(t[1])};
+    oB y{tok<oB>(t[2])};
+    opt<R> const r{fo::apply(fn2m<R, A, B>("f", f), x, y)};
+    return show(r) + " " + show(x) + " " + show(y);
+  }
+  if (o == "o.mm2.mut" && n == 5)
+  {
+    std::optional<R> const d{tokx<R>(t[3])};
+    auto const f = tbl<R>(9, t[4]);
+    oA x{tok<oA>(t[1])};
+    oB y{tok<oB>(t[2])};
+    R const r{fo::maybe_multi(thunk<R>("d", d), fn2m<R, A, B>("t", f), x, y)};
+    return show(r) + " " + show(x) + " " + show(y);
+  }
+  if (o == "e.map.mut" && n == 3)
+  {
+    auto const f = tbl<B>(3, t[2]);
+    eA x{tok<eA>(t[1])};
+    eB const r{fe::map(x, fn1m<B, A>("f", f))};
+    return show(r) + " " + show(x);
+  }
+  if (o == "e.bind.mut" && n == 3)
+  {
+    auto const f = tbl<eB>(3, t[2]);
+    eA x{tok<eA>(t[1])};
+    eB const r{fe::bind(x, fn1m<eB, A>("f", f))};
+    return show(r) + " " + show(x);
+  }
+  if (o == "e.mapf.mut" && n == 3)
+  {
+    auto const f = tbl<B>(3, t[2]);
+    eA x{tok<eA>(t[1])};
+    eith<B, A> const r{fe::map_failure(x, fn1m<B, E>("f", f))};
+    return show(r) + " " + show(x);
+  }
+  if (o == "e.match.mut" && n == 4)
+  {
+    auto const ff = tbl<R>(3, t[2]);
+    auto const fs = tbl<R>(3, t[3]);
+    eA x{tok<eA>(t[1])};
+    R const r{fe::match(x, fn1m<R, E>("ff", ff), fn1m<R, A>("fs", fs))};
+    return show(r) + " " + show(x);
+  }
+  if (o == "e.apply2.mut" && n == 4)
+  {
+    auto const f = tbl<R>(9, t[3]);
+    eA x{tok<eA>(t[1])};
+    eB y{tok<eB>(t[2])};
+    eith<E, R> const r{fe::apply(fn2m<R, A, B>("f", f), x, y)};
+    return show(r) + " " + show(x) + " " + show(y);
+  }
+  if (o == "v.match.mut" && n == 5)
+  {
+    auto const fa = tbl<R>(3, t[2]);
+    auto const fb = tbl<R>(3, t[3]);
+    auto const fc = tbl<R>(3, t[4]);
+    var3 x{tok<var3>(t[1])};
+    R const r{fv::match(x, fn1m<R, A>("a", fa), fn1m<R, B>("b", fb), fn1m<R, C>("c", fc))};
+    return show(r) + " " + show(x);
+  }
+  if (o == "v.apply1.mut" && n == 3)
+  {
+    auto const f = tbl<R>(9, t[2]);
+    var3 x{tok<var3>(t[1])};
+    R const r{fv::apply(
+        [&f](auto &a) -> R
+        {
+          int const i = std::remove_cvref_t<decltype(a)>::tag;
+          int const old{a.v()};
+          lg("f", {i, old});
+          bump(a);
+          return f.at(i * 3 + ix(old));
+        },
+        x)};
+    return show(r) + " " + show(x);
+  }
+  throw bad_op{};
+}
+
 std::string op_vv(std::vector<std::string> const &t)
 {
   std::string const &o = t[0];
@@ -1412,7 +1564,7 @@ std::string op_vv(std::vector<std::string> const &t)
                               return res;
                             }));
   }
-  throw bad_op{};
+  return op_mut(t);
 }
 
 // ------------------------------------------------------------------ operations
